@@ -113,3 +113,143 @@ Proof. vm_compute. repeat split. Qed.
 Example C04_hypotheses_satisfiable :
   frame_F _ _ _ _ _ _ prog_sub_iter /\ frame_A _ _ _ _ _ _ prog_sub_iter.
 Proof. exact sub_iter_frames. Qed.
+
+(* ---- pipelines (Ops/ClosureCompose.v) ---------------------------------------------------- *)
+From RxVerif Require Import Ops.ClosureCompose.
+
+(* [lcompose g p1 p2] is the levelled program of source.pipe(op1, op2): operator value, application
+   state and subscription state are the PAIRS of the two stages' (F1*F2, A1*A2, S1*S2), one handler
+   run hands what p1 emits to p2's handler.  For ALL stage programs: if both stages respect the
+   factory and application frames, so does the pipeline. *)
+Theorem C04_compose_frames :
+  forall (Src1 Src2 In Mid Out F1 A1 S1 F2 A2 S2 : Type) (g : Src1 -> Src2)
+         (p1 : lprog Src1 In Mid F1 A1 S1) (p2 : lprog Src2 Mid Out F2 A2 S2),
+    frame_F _ _ _ _ _ _ p1 -> frame_A _ _ _ _ _ _ p1 ->
+    frame_F _ _ _ _ _ _ p2 -> frame_A _ _ _ _ _ _ p2 ->
+    frame_F _ _ _ _ _ _ (lcompose g p1 p2) /\ frame_A _ _ _ _ _ _ (lcompose g p1 p2).
+Proof. exact lcompose_frames. Qed.
+Print Assumptions C04_compose_frames.
+
+(* lcompose IS sequential composition: what a subscription of the pipeline emits alone is p2's
+   isolated run on p1's isolated run (no frame hypothesis needed) *)
+Theorem C04_compose_is_sequential :
+  forall (Src1 Src2 In Mid Out F1 A1 S1 F2 A2 S2 : Type) (g : Src1 -> Src2)
+         (p1 : lprog Src1 In Mid F1 A1 S1) (p2 : lprog Src2 Mid Out F2 A2 S2) src ins,
+    iso _ _ _ _ _ _ (lcompose g p1 p2) src ins
+    = iso _ _ _ _ _ _ p2 (g src) (iso _ _ _ _ _ _ p1 src ins).
+Proof. exact lcompose_iso. Qed.
+Print Assumptions C04_compose_is_sequential.
+
+(* ANY finite pipeline -- [pipeline l] is fold_right of lcompose over the list l of stages (each
+   stage packaged with its own state types), the empty pipeline being the identity program -- of
+   stages that respect the frames respects them ... *)
+Theorem C04_pipeline_frames :
+  forall (Src X : Type) (l : list (stage Src X)),
+    Forall stage_frames l -> stage_frames (pipeline l).
+Proof. exact pipeline_frames. Qed.
+Print Assumptions C04_pipeline_frames.
+
+(* ... so C04_generic applies to it: in EVERY history every subscription of the pipeline emits the
+   stages' isolated runs applied one after the other to the inputs it received ... *)
+Theorem C04_pipeline_generic :
+  forall (Src X : Type) (l : list (stage Src X)), Forall stage_frames l ->
+    forall h st t,
+      exec_shared _ _ _ _ _ _ (st_prog (pipeline l)) (init_shared _ _ _ _ _ _ (st_prog (pipeline l))) h = (st, t) ->
+    forall j k s, nth_error (s_subs _ _ _ _ st) j = Some (k, s) ->
+      exists src a, nth_error (s_apps _ _ _ _ st) k = Some (src, a)
+                 /\ outs_of X X j t = pipeline_iso l src (ins_of X X j t).
+Proof. exact pipeline_generic. Qed.
+Print Assumptions C04_pipeline_generic.
+
+(* ... and C04_resubscribe: two subscriptions of one piped observable on the same inputs agree *)
+Theorem C04_pipeline_resubscribe :
+  forall (Src X : Type) (l : list (stage Src X)), Forall stage_frames l ->
+    forall h st t,
+      exec_shared _ _ _ _ _ _ (st_prog (pipeline l)) (init_shared _ _ _ _ _ _ (st_prog (pipeline l))) h = (st, t) ->
+    forall j1 j2 k s1 s2,
+      nth_error (s_subs _ _ _ _ st) j1 = Some (k, s1) ->
+      nth_error (s_subs _ _ _ _ st) j2 = Some (k, s2) ->
+      ins_of X X j1 t = ins_of X X j2 t -> outs_of X X j1 t = outs_of X X j2 t.
+Proof. exact pipeline_resubscribe. Qed.
+Print Assumptions C04_pipeline_resubscribe.
+
+(* the same for pipelines whose element type changes from stage to stage ([chain Src X Z]: a
+   type-indexed list of stages, [chain_prog] folds lcompose over it) *)
+Theorem C04_chain_generic :
+  forall (Src X Z : Type) (c : chain Src X Z), chain_frames Src c ->
+    forall h st t,
+      exec_shared _ _ _ _ _ _ (chain_prog Src c) (init_shared _ _ _ _ _ _ (chain_prog Src c)) h = (st, t) ->
+    forall j k s, nth_error (s_subs _ _ _ _ st) j = Some (k, s) ->
+      exists src a, nth_error (s_apps _ _ _ _ st) k = Some (src, a)
+                 /\ outs_of X Z j t = chain_iso Src c src (ins_of X Z j t).
+Proof. exact chain_generic. Qed.
+Print Assumptions C04_chain_generic.
+
+Theorem C04_chain_resubscribe :
+  forall (Src X Z : Type) (c : chain Src X Z), chain_frames Src c ->
+    forall h st t,
+      exec_shared _ _ _ _ _ _ (chain_prog Src c) (init_shared _ _ _ _ _ _ (chain_prog Src c)) h = (st, t) ->
+    forall j1 j2 k s1 s2,
+      nth_error (s_subs _ _ _ _ st) j1 = Some (k, s1) ->
+      nth_error (s_subs _ _ _ _ st) j2 = Some (k, s2) ->
+      ins_of X Z j1 t = ins_of X Z j2 t -> outs_of X Z j1 t = outs_of X Z j2 t.
+Proof. exact chain_resubscribe. Qed.
+Print Assumptions C04_chain_resubscribe.
+
+(* non-vacuity: a three-stage pipeline (index adder | running sum | index adder, all with real
+   per-subscription state) satisfies the hypothesis; two overlapping subscriptions fed different
+   inputs each emit their own isolated run; and a two-stage chain whose element type changes *)
+Example C04_pipeline_hypothesis_satisfiable : Forall stage_frames stages3.
+Proof. exact stages3_frames. Qed.
+
+Example C04_pipeline_witness :
+  let h := [EApply tt; ESub 0; ERun 0 5%Z; ESub 0; ERun 1 5%Z; ERun 0 7%Z; ERun 1 1%Z; ERun 0 1%Z] in
+  let t := trace_shared _ _ _ _ _ _ (st_prog (pipeline stages3)) h in
+  outs_of _ _ 0 t = [5%Z; 14%Z; 18%Z] /\ outs_of _ _ 1 t = [5%Z; 8%Z]
+  /\ pipeline_iso stages3 tt [5%Z; 7%Z; 1%Z] = [5%Z; 14%Z; 18%Z].
+Proof. exact stages3_witness. Qed.
+
+Example C04_chain_hypothesis_satisfiable : chain_frames unit chain_take_count.
+Proof. exact chain_take_count_frames. Qed.
+
+Example C04_chain_witness :
+  let h := [EApply tt; ESub 0; ERun 0 10%Z; ESub 0; ERun 0 11%Z; ERun 1 20%Z; ERun 0 12%Z] in
+  let t := trace_shared _ _ _ _ _ _ (chain_prog unit chain_take_count) h in
+  outs_of _ _ 0 t = [1; 3; 3] /\ outs_of _ _ 1 t = [1].
+Proof. exact chain_take_count_witness. Qed.
+
+(* ---- the hypothesis of C04_table_sound is satisfiable at a real row set --------------------
+   [prog_take count] models reactivex/operators/_take.py line by line in the store format of
+   [described_by] (factory store = the captured `count`, read only; empty application store;
+   subscription state = `remaining`); it IS described by the rows of "ops.take" of the generated
+   table (whose only site, `remaining`, is allocated by subscribe) for every count *)
+Example C04_table_sound_hypothesis_satisfiable :
+  forall count,
+    described_by unit Z (list (option Z)) Z (prog_take count)
+      (fcells (rows_of "ops.take" alloc_table)) (acells (rows_of "ops.take" alloc_table)).
+Proof. exact take_described. Qed.
+
+Example C04_take_rows :
+  fcells (rows_of "ops.take" alloc_table) = [] /\ acells (rows_of "ops.take" alloc_table) = []
+  /\ existsb (fun e => String.eqb (a_name e) "remaining" && level_leb LSub (a_alloc e))
+             (rows_of "ops.take" alloc_table) = true.
+Proof. exact take_rows_cells. Qed.
+
+(* so C04_table_sound yields, through the rows of ops.take, the re-subscription theorem for it *)
+Theorem C04_take_resubscribe :
+  forall count h st t,
+    exec_shared _ _ _ _ _ _ (prog_take count) (init_shared _ _ _ _ _ _ (prog_take count)) h = (st, t) ->
+    forall j1 j2 k s1 s2,
+      nth_error (s_subs _ _ _ _ st) j1 = Some (k, s1) ->
+      nth_error (s_subs _ _ _ _ st) j2 = Some (k, s2) ->
+      ins_of _ _ j1 t = ins_of _ _ j2 t -> outs_of _ _ j1 t = outs_of _ _ j2 t.
+Proof. exact take_resubscribe. Qed.
+Print Assumptions C04_take_resubscribe.
+
+(* and its runs are not trivial: two overlapping subscriptions of take(2) applied once *)
+Example C04_take_witness :
+  let h := [EApply tt; ESub 0; ERun 0 10%Z; ESub 0; ERun 1 20%Z; ERun 0 11%Z; ERun 0 12%Z; ERun 1 21%Z; ERun 1 22%Z] in
+  let t := trace_shared _ _ _ _ _ _ (prog_take 2) h in
+  outs_of _ _ 0 t = [[Some 10%Z]; [Some 11%Z; None]; []]
+  /\ outs_of _ _ 1 t = [[Some 20%Z]; [Some 21%Z; None]; []].
+Proof. exact take_witness. Qed.
